@@ -174,6 +174,9 @@ def operations(cls, tier):
     ops.append(("append_list", False))
     ops.append(("append_list", True))
     ops.append(("append_self", False))
+    ops.append(("append_empty", False))
+    ops.append(("append_empty", True))
+    ops.append(("empty_append", False))
     for b in BOUNDS:
         for inc in (False, True):
             if hold:
@@ -214,6 +217,10 @@ def apply_lib(cls, l, op):
         return l.append(other, sort=op[1])
     if k == "append_self":
         return l.append(l, sort=op[1])
+    if k == "append_empty":
+        return l.append(cls([]), sort=op[1])
+    if k == "empty_append":
+        return cls([]).append(l, sort=op[1])
     if k == "after":
         return l.after(op[1], include_end=op[2], include_tail=op[3]) if len(op) == 4 else l.after(op[1], include_end=op[2])
     if k == "before":
@@ -256,6 +263,8 @@ def apply_twin(cls, rows, op):
     if k == "append_self":
         rows = rows + [dict(r) for r in rows]
         return rows, None
+    if k in ("append_empty", "empty_append"):
+        return (sorted(rows, key=lambda r: r["offset"]), "asc") if op[1] else (rows, None)
     if k == "after":
         tail = op[3] if len(op) == 4 else False
         return [r for r in rows if (_key_after(r, tail) >= op[1] if op[2] else _key_after(r, tail) > op[1])], None
@@ -439,6 +448,26 @@ def step(cls, name, l, tw, op, hist, ctx):
     return l2, tw2
 
 
+def probe_alias(cls, short, l, tw, op, hist, ctx):
+    """A plain sequence operation returns a NEW sequence: assigning columns of the result through its setters must not show in
+    the receiver.  The receiver is observed again after the result was edited."""
+    try:
+        la = l.deepcopy()
+        r = apply_lib(cls, la, op)
+    except Exception:
+        return
+    ctx.transition(2)
+    try:
+        r.offset = r.offset + 1000.25
+        if is_hold(cls):
+            r.length = r.length + 7.0
+    except Exception:
+        return
+    props = list(cls._item_class()._props)
+    obs = lib_rows(la, props)
+    ctx.check("receiver.after_result_edit", obs == tw, site=dict(cls=short, op=op[0]), case=lambda: dict(cls=short, history=hist + [op, ("alias",)]), observed=obs, expected=tw)
+
+
 def probe_inplace(cls, short, l, tw, hist, ctx):
     """Second use of ONE list object: observe it (anything the list caches is now warm), assign new offsets (and lengths) through
     the column setters in place, observe again. A value remembered from before the edit would show here."""
@@ -504,6 +533,8 @@ def explore(root, tier, ctx):
                 r = step(cls, short, l, tw, op, hist, ctx)
                 if r is None:
                     continue
+                if d == 1 and op[0] != "deepcopy":
+                    probe_alias(cls, short, l, tw, op, hist, ctx)
                 l2, tw2 = r
                 k = core.h64(canon_list(l2))
                 if k in seen:
@@ -539,9 +570,13 @@ def replay(case, ctx):
         return
     h = [ctor]
     observe(cls, name, l, tw, h, ctx)
-    for op in hist[1:]:
+    ops = hist[1:]
+    for i, op in enumerate(ops):
         if str(op[0]).startswith("inplace"):
             probe_inplace(cls, name, l, tw, h, ctx)
+            return
+        if i + 1 < len(ops) and ops[i + 1][0] == "alias":
+            probe_alias(cls, name, l, tw, op, h, ctx)
             return
         r = step(cls, name, l, tw, op, h, ctx)
         h = h + [op]
